@@ -3,7 +3,9 @@ from .pdb import strip, walk, loc, ancestors
 from .terms import Ctx, num, show, lin_add, lin_sub
 from .common import (P, F, LEN, SIZE, GT, GE, NE, effects, callee_path, callee_generic, call_args, in_macro, forwards_to, is_zero_term, OP_OF_TRAIT,
                      rule_elementwise, effective_guards, find_argmax, is_abs_term, _resolve, rule_index_kinds, single_expr_body, is_call_like)
-from .guards import for_range, facts, cond_atoms, norm_cmp, prove_lt, prove_le
+from .guards import facts, cond_atoms, norm_cmp, prove_lt, prove_le
+from .guards import for_range as raw_for_range
+from .common import for_range_total as for_range
 from .algebra import SymExec
 
 LEVEL = "other"
